@@ -658,7 +658,14 @@ func (js *jobState) runOnce(x *exchange, retry int) *obs {
 	p := &pending{x: x, ver: versions[x.Ver]}
 	js.scripts.Store(tok, p)
 	from := c.Count()
-	if err := c.SendBytes(sent, int(stream), x.Op, tok, "wire"); err != nil {
+	// every fourth frame reaches the proxy in two TCP segments, cut somewhere inside its header
+	c.SplitAt = 0
+	if js.nstream%4 == 3 {
+		c.SplitAt = 1 + js.nstream/4%8
+	}
+	err = c.SendBytes(sent, int(stream), x.Op, tok, "wire")
+	c.SplitAt = 0
+	if err != nil {
 		delete(js.clients, x.Ver+"/"+x.Comp)
 		return fail("noconn", "send: "+err.Error())
 	}
